@@ -124,6 +124,7 @@ def verify_block(ex, fi, c, name, label=None):
                 ex.oblige(s, f'{lab}/raises[{val}].if', rconds[val], kind='raises-iff')
             else:
                 ex.oblige(s, f'{lab}/unexpected[{kind}:{val}]', z3.BoolVal(False), kind='absence')
+        add_global_axioms(ex)
         return ex.obs, None
     except VCError as e:
         return ex.obs, str(e)
@@ -196,7 +197,7 @@ def verify_one(ex, fi, c, label=None, case=None):
                 val = val if kind == 'return' else NONE_SV
                 s2 = s
                 if rt is not None and rt.kind != 'none':
-                    s2 = s2.setvar('result', ex.coerce(val, rt, f'return value of {fi.key}'))
+                    s2 = s2.setvar('result', ex.coerce_chk(s2, cx, fi.node, val, rt, f'return value of {fi.key}'))
                 elif val.ty.kind != 'none' and rt is None:
                     s2 = s2.setvar('result', val)
                 # params keep their entry binding in postconditions (Python rebinding is local)
@@ -227,9 +228,18 @@ def verify_one(ex, fi, c, label=None, case=None):
                     ex.oblige(s, f'{lab}/unexpected[{val}]', z3.BoolVal(False), kind='absence')
             else:
                 raise VCError(f'{kind} escaped the function body')
+        add_global_axioms(ex)
         return ex.obs, None
     except VCError as e:
         return ex.obs, str(e)
+
+
+def add_global_axioms(ex):
+    if ex.global_axioms:
+        ax = tuple(ex.global_axioms)
+        for ob in ex.obs:
+            if ob.kind != 'vacuity':
+                ob.assumptions = tuple(ob.assumptions) + ax
 
 
 def lemmas_assumed(ex, st, c, scx):
